@@ -203,6 +203,8 @@ pub enum Mac {
     SdBare,
     /// LOG1 with an empty stack
     LogBare,
+    /// CALL with an explicit input length and return window
+    CallWin { to: Address, in_len: u64, out_off: u64, out_len: u64 },
 }
 
 impl Mac {
@@ -258,6 +260,7 @@ impl Mac {
             Mac::Stop => a.op(op::STOP),
             Mac::SdBare => a.op(op::SELFDESTRUCT),
             Mac::LogBare => a.op(op::LOG0 + 1),
+            Mac::CallWin { to, in_len, out_off, out_len } => a.call(op::CALL, U256::from(100_000), to, Some(U256::ZERO), 0, in_len, out_off, out_len).op(op::POP),
         }
     }
 }
